@@ -58,7 +58,7 @@ def log(*a):
 
 OVERLAYS = {
     # package dir (relative to the repository) -> list of harness files added to it
-    "internal/pfcp": ["pfcp/zz_verif_l1_test.go"],
+    "internal/pfcp": ["pfcp/zz_verif_l1_test.go", "pfcp/zz_verif_l2_test.go"],
     "internal/gtpv1": ["gtpv1/zz_verif_gtpu_test.go"],
     "internal/report": ["report/zz_verif_flags_test.go"],
     "internal/forwarder": ["forwarder/zz_verif_fwd_test.go", "forwarder/zz_verif_rules_test.go", "forwarder/zz_verif_export.go"],
@@ -108,8 +108,8 @@ def build_test_binary(pkg, race=False, extra_files=None):
 
 # ------------------------------------------------------------------------------------------ L1 executor
 
-def run_l1(binary, scripts, k, name, timeout=1200):
-    """Run the L1 executor (child process) on the scripts; returns (trace_path, info)."""
+def run_l1(binary, scripts, k, name, timeout=1200, test="TestVerifL1"):
+    """Run the L1 (or L2) executor (child process) on the scripts; returns (trace_path, info)."""
     d = sub("l1")
     fin = os.path.join(d, name + ".in.ndjson")
     fout = os.path.join(d, name + ".out.ndjson")
@@ -119,7 +119,7 @@ def run_l1(binary, scripts, k, name, timeout=1200):
     env = dict(os.environ, VERIF_IN=fin, VERIF_OUT=fout, VERIF_K=str(k))
     t0 = time.time()
     try:
-        p = subprocess.run([binary, "-test.run", "^TestVerifL1$", "-test.timeout", "%ds" % timeout], cwd=d, env=env,
+        p = subprocess.run([binary, "-test.run", "^%s$" % test, "-test.timeout", "%ds" % timeout], cwd=d, env=env,
                            stdout=subprocess.PIPE, stderr=subprocess.STDOUT, text=True, timeout=timeout + 30)
         rc, outtxt = p.returncode, p.stdout
     except subprocess.TimeoutExpired as ex:
